@@ -181,6 +181,52 @@ def records_with_shared_names(ck: Check, n: int) -> None:
                 ck.fail("record-item-width", f"{rname}: locating the items of the record raises {enum(ex)}", {**inp, "reader": rname})
 
 
+def binding_histories(ck: Check, n: int, reqs: list[str], impl: list[str], inputs: list[Any]) -> None:
+    """One open EBCDIC workbook, a history of set_schema calls with layouts of different lengths (on the same sheet or on new
+    sheets): the record length each sheet then works with is compared with Facade.EFile.run, and (oracle) is the explicit lrecl when
+    one was given, else the length of the layout bound by THAT call."""
+    from stingray.cobol_parser import schema_iter
+    from stingray.schema_instance import SchemaMaker
+    from stingray.workbook import COBOL_EBCDIC_File
+
+    rng = ck.rng
+    layouts: dict[int, Any] = {}
+
+    def layout(w: int) -> Any:
+        if w not in layouts:
+            a = rng.randint(1, max(1, w - 1)) if w > 1 else 1
+            text = (f"       01  L{w}.\n           05  A PIC X({a}).\n" + (f"           05  B PIC X({w - a}).\n" if w - a else ""))
+            layouts[w] = SchemaMaker.from_json(next(iter(schema_iter(io.StringIO(text)))))
+        return layouts[w]
+
+    for _ in range(n):
+        given = rng.choice([None, None, None, 0, 80, rng.randint(1, 40)])
+        lens = [rng.randint(1, 40) for _ in range(rng.randint(1, 5))]
+        ck.case(("bindings", given, tuple(lens)), feature="set_schema-history/" + ("explicit-lrecl" if given else "computed"))
+        ck.oracle_evaluations += 1
+        inp = {"lrecl_given": given, "layout_lengths_bound_in_turn": lens}
+        try:
+            wb = COBOL_EBCDIC_File("x.data", file_object=io.BytesIO(b""), lrecl=given)
+            sheet = wb.sheet("")
+            got = []
+            for k, w in enumerate(lens):
+                if k and rng.random() < 0.4:
+                    sheet = wb.sheet("")
+                sheet.set_schema(layout(w))
+                got.append(sheet.lrecl)   # type: ignore[attr-defined]
+            out = ",".join(map(str, got))
+        except BaseException as ex:  # noqa: BLE001
+            out = enum(ex)
+            got = []
+        want = [given if given else w for w in lens]
+        if got != want:
+            ck.fail("display-sites", f"layouts of {lens} bytes bound in turn on one EBCDIC workbook (lrecl given: {given}): the sheets work with "
+                                     f"record lengths {out}, the layouts' / the given length are {want}", inp)
+        reqs.append(f"FAC lrecl {given if given is not None else '-'} {','.join(map(str, lens))}")
+        impl.append(out)
+        inputs.append(inp)
+
+
 def explore(ck: Check, full_sites: bool) -> None:
     rng = ck.rng
     reqs: list[str] = []
@@ -288,6 +334,7 @@ def explore(ck: Check, full_sites: bool) -> None:
                         {"format": fmt})
     records_with_shared_names(ck, 40 if full_sites else 12)
     makers_for_other_readers(ck)
+    binding_histories(ck, 200 if full_sites else 40, reqs, impl, inputs)
     model = ck.driver.run(reqs)
     # Struct-bare / Text-bare were only computed where sites() ran
     keep = [i for i, v in enumerate(impl) if v != "?"]
